@@ -72,6 +72,7 @@ func c03World(t *testing.T, r *simcore.Run) any {
 		r.Begin() // restart the run's time origin after the jump
 		r.Probe("near-era")
 	}
+	ipDrawFamily(r)
 	w := newIPWorld(r, srvOff, skew)
 	w.observe()
 	r.ProcDelayMaxNs = []int64{0, 20000, 2000000}[tp.Intn(3, "pdelay")]
